@@ -223,9 +223,14 @@ def truth_law(truth, ci, one):
     return truth['laws'][ci]
 
 
-def run_pipeline(d, truth, mef_given, mef_channels, clustering_channels, statistic, clustering_fxn=None, seed=0, list_form=False, selection='default'):
+def run_pipeline(d, truth, mef_given, mef_channels, clustering_channels, statistic, clustering_fxn=None, seed=0, list_form=False, selection='default',
+                 plot=False):
     import FlowCal
     kw = {}
+    if plot:
+        pd_ = os.path.join(scratch(), 'c02plots')
+        os.makedirs(pd_, exist_ok=True)
+        kw.update(plot=True, plot_dir=pd_, plot_filename='c02')
     if clustering_fxn is not None:
         kw['clustering_fxn'] = clustering_fxn
     if selection == 'none':
@@ -367,6 +372,13 @@ def layer_b_cases(tier, seed):
     cfg_c = dict(base, container='float', rfi_min=30.0, n_pop=cfg_a['n_pop'])
     for seq in ([cfg_a, cfg_b, cfg_a], [cfg_b, cfg_a, cfg_c], [cfg_c, cfg_b]):
         yield dict(kind='B-sequence', cfgs=seq, stream=streams[0])
+    # the same bead sample object calibrated twice, the first time with the diagnostic figures switched on: the figures are a by-product,
+    # the sample handed in stays as it was and the second calibration reproduces the first. The dimmest population is stepped through
+    # the region just above the lower detector limit, where the exclusion rule is sensitive to the limits the sample reports.
+    grid = [2.0, 2.6, 3.1, 3.5, 4.0, 5.0] if tier == 'quick' else [round(1.5 * 1.06 ** i, 3) for i in range(30)]
+    for cont in ('float', 'int'):
+        for g in (grid if cont == 'float' else grid[:1]):
+            yield dict(kind='B-plot', cfg=dict(base, container=cont, rfi_min=g, n_pop=8 if cont == 'float' else 6), stream=streams[0])
 
 
 def spec_of(cfg, stream):
@@ -452,12 +464,56 @@ def run_b(c, res, one_case=None):
     res.sample({'layer': 'B', 'configuration': {k_: v for k_, v in cfg.items()}, 'stream': stream, 'events': int(d.shape[0])})
 
 
+def run_b_plot(c, res):
+    cfg, stream = c['cfg'], c['stream']
+    spec = spec_of(cfg, stream)
+    d, truth = load(spec, 'p')
+    truth['laws'] = spec['laws']
+    mef_channels = truth['fl_names'][:1]
+    mef_given = [[float(v) for v in truth['mef'][0]]]
+    one = dict(c)
+    what = 'get_transform_fxn(plot=True) then get_transform_fxn(plot=False) on the same %s bead sample (dimmest population at %g)' % (cfg['container'], cfg['rfi_min'])
+    f0 = _fp(d)
+    outs = []
+    try:
+        with warnings.catch_warnings():
+            warnings.simplefilter('ignore')
+            outs.append(run_pipeline(d, truth, mef_given, mef_channels, None, 'median', seed=stream, plot=True))
+            f1 = _fp(d)
+            outs.append(run_pipeline(d, truth, mef_given, mef_channels, None, 'median', seed=stream))
+            d3, _ = load(spec, 'p3')
+            outs.append(run_pipeline(d3, truth, mef_given, mef_channels, None, 'median', seed=stream))
+    except Exception as e:
+        res.violation('B-plot:raises:%s' % type(e).__name__, '%s raised %s: %s' % (what, type(e).__name__, e), one)
+        return
+    finally:
+        import matplotlib.pyplot as plt
+        plt.close('all')
+    sig = []
+    for o in outs:
+        sig.append((np.asarray(o.clustering['labels']).tolist(), [np.asarray(x, dtype=float).tolist() for x in o.selection['rfi']],
+                    [np.asarray(x, dtype=float).tolist() for x in o.selection['mef']], [np.asarray(x, dtype=float).tolist() for x in o.fitting['beads_params']]))
+    if sig[0] != sig[1]:
+        res.violation('B-plot:figures-change-outcome', '%s: the two calibrations differ (selected %d vs %d populations)' % (what, len(sig[0][1][0]), len(sig[1][1][0])), one)
+        return
+    if sig[1] != sig[2]:
+        res.violation('B-plot:history', '%s: the second calibration differs from that of a freshly loaded copy of the file (selected %d vs %d populations)' % (
+            what, len(sig[1][1][0]), len(sig[2][1][0])), one)
+        return
+    if f1 != f0:
+        from ..fingerprint import diff as _diff
+        res.violation('B-plot:sample-changed', '%s: the first calibration changed the bead sample handed in (%s)' % (what, _diff(f0, f1)), one)
+        return
+    res.ok('B-plot', True)
+    res.sample({'layer': 'B-plot', 'container': cfg['container'], 'rfi_min': cfg['rfi_min']})
+
+
 def cases(tier, seed):
     # the sequences of calibrations come first (and each is followed by a filler) so that each is the first thing its worker process
     # executes: state kept by the library from earlier calibrations of the same process cannot mask what they are after
     later = []
     for c in layer_b_cases(tier, seed):
-        if c['kind'] == 'B-sequence':
+        if c['kind'] in ('B-sequence', 'B-plot'):
             yield c
             yield dict(kind='selection', scale='linear', cont='array', filler=True)
         else:
@@ -521,6 +577,52 @@ def run_selection(c, res):
                 res.violation('selection:thresholds', '%s: %s' % (what, bad), one)
             else:
                 res.ok('selection', lo is not None or hi is not None)
+    # n_std_low belongs to the low threshold and n_std_high to the high threshold: with the other threshold far away, a population is
+    # dropped exactly when its mean lies within n_std standard deviations (of the rescaled population) of the near threshold, and the
+    # other count has no say
+    import FlowCal.plot
+    if c['scale'] == 'linear':
+        sf = lambda x: np.asarray(x, dtype=float)
+    elif c['scale'] == 'log':
+        sf = lambda x: np.log10(np.asarray(x, dtype=float))
+    else:
+        t_ = FlowCal.plot._LogicleTransform(data=pops[0], channel=0).inverted()
+        sf = lambda x: t_.transform_non_affine(np.asarray(x, dtype=float), mask_out_of_range=False)
+    far_lo = {'linear': -1e9, 'log': 1e-12, 'logicle': -1e4}[c['scale']]
+    far_hi = {'linear': 1e12, 'log': 1e12, 'logicle': 1e9}[c['scale']]
+    mu = [float(np.mean(sf(np.asarray(p_).ravel()))) for p_ in pops]
+    sd = [max(float(np.std(sf(np.asarray(p_).ravel()))), 0.005) for p_ in pops]
+    for side, j in (('high', 5), ('high', 4), ('low', 0), ('low', 1)):
+        if c['scale'] == 'logicle' and c['cont'] == 'array':
+            break         # a plain array has no range: the logicle scale is derived from the first population alone and does not span the others
+        for near_n in (1.0, 2.0, 4.0):
+            # threshold placed 3 standard deviations from the population mean: dropped for counts above 3, kept below
+            thr_s = mu[j] + 3.0 * sd[j] if side == 'high' else mu[j] - 3.0 * sd[j]
+            # back to data units by bisection on the monotone rescaling
+            lo_x, hi_x = (1e-9 if c['scale'] == 'log' else -1e3), 1e7
+            for _ in range(200):
+                mid = 0.5 * (lo_x + hi_x)
+                if float(sf(mid)) < thr_s:
+                    lo_x = mid
+                else:
+                    hi_x = mid
+            thr = 0.5 * (lo_x + hi_x)
+            for other_n in (0.5, 2.5, 6.0):
+                kw = dict(low=far_lo, high=thr, n_std_high=near_n, n_std_low=other_n) if side == 'high' else \
+                    dict(low=thr, high=far_hi, n_std_low=near_n, n_std_high=other_n)
+                one = dict(c)
+                what = 'selection_std(6 populations, %s, scale=%r)' % (', '.join('%s=%r' % kv for kv in sorted(kw.items())), c['scale'])
+                try:
+                    m = sel(**kw)
+                except Exception as e:
+                    res.violation('selection:nstd:raises:%s' % type(e).__name__, '%s raised %s: %s' % (what, type(e).__name__, e), one)
+                    continue
+                want = near_n < 3.0
+                if bool(m[j]) != want:
+                    res.violation('selection:nstd-%s' % side, '%s: population #%d (mean %.4g, std %.4g in rescaled units; %s threshold 3 std away) is %s, expected %s' % (
+                        what, j, mu[j], sd[j], side, 'kept' if m[j] else 'dropped', 'kept' if want else 'dropped'), one)
+                else:
+                    res.ok('selection:nstd', True)
     res.sample({'selection_std': 'explicit / defaulted thresholds', 'scale': c['scale'], 'container': c['cont']})
 
 
@@ -531,6 +633,8 @@ def run_case(c):
         return res
     if c['kind'] == 'A':
         run_a(c, res)
+    elif c['kind'] == 'B-plot':
+        run_b_plot(c, res)
     elif c['kind'] == 'B-sequence':
         for cfg in c['cfgs']:
             run_b(dict(kind='B', cfg=cfg, stream=c['stream']), res, one_case=c)
